@@ -88,13 +88,14 @@ def run_case(case):
         res["status"] = "violated"
         return res
     ncells = 0
+    st_obj = pipeline.jnp_states(init)  # one mapping object, re-used for every call like a user would
     for tg in subsets:
         tg = [str(x) for x in tg]
         if case["index"] % 2 == 0:
             # same names, other bodies, same targets, same process, right before the judged call
             pipeline.run_sibling(desc, simulate=True, targets=tg, counters=cnt)
         try:
-            df = simcheck.simulate_once(fsim, params, init, vf, seed=7, targets=tg if tg else None)
+            df = simcheck.simulate_once(fsim, params, init, vf, seed=7, targets=tg if tg else None, st_obj=st_obj)
         except Exception as e:  # noqa: BLE001
             res["violations"].append({"key": pipeline.exc_key(e, "simulate_targets"), "what": pipeline.exc_text(e) + f" targets={tg}"})
             continue
@@ -110,6 +111,7 @@ def run_case(case):
             res["violations"] += viol
             ncells += n
     cnt["c13_target_cells"] = ncells
+    res["violations"] += simcheck.drain_argument_mutations()
     res["status"] = "violated" if res["violations"] else "held"
     res["features"] = {**{k: bool(v) for k, v in realised.items()}, f"N{N}": True, f"T{ref.T}": True}
     res["sig"] = f"{dsl.shape_signature(desc)}#{pipeline.param_hash(params)}#N{N}#{len(subsets)}"
